@@ -227,6 +227,9 @@ func mapToStruct(m map[string]any, t reflect.Type, toPtr bool) reflect.Value {
 
 func toSliceValue(vs []any) (reflect.Value, error) {
 	typ := reflect.TypeOf(vs[0])
+	if typ == nil {
+		return reflect.Value{}, fmt.Errorf("cannot concat a nil value")
+	}
 
 	ret := reflect.MakeSlice(reflect.SliceOf(typ), len(vs), len(vs))
 	ret.Index(0).Set(reflect.ValueOf(vs[0]))
